@@ -11,7 +11,8 @@ RULE = ("the configurations of C11 (1-4 inputs, intervals on chr1/chr2/chr10, bo
         "plain LocatableByAllele objects, scheme-less MafRecords and gdc-1.0.0 MafRecords read under Silent, whose "
         "alts is the real [Tumor_Seq_Allele2] incl. the empty cell) with reference alleles from {A,C,G} and "
         "alternate-allele lists that are empty, single, repeated, permuted, overlapping or contained, under each "
-        "of the three relations; streams: valid, allele-dense (one locus, many allele classes), single defect "
+        "of the three relations (Equality also as the constructor's default), driven through next(it) / it.next() / both; "
+        "a long-sparse stream (1100-3000 consecutive groups without first-input record); streams: valid, allele-dense (one locus, many allele classes), single defect "
         "(descent / name-sorted under contigs), adversarial (false records, shuffled inputs, no inputs). "
         "Non-trivial: a positional group whose first slot splits into >= 2 allele classes, or another input's "
         "slot from which the filter removes some but not all records; distinct by hash.")
@@ -165,6 +166,9 @@ def _dense(rng):
                 r[ALTS] = rng.choice([[], [], ["A"], ["C"], ["G"], ["T"]])
     case = K._mkcase(rng, "dense", inputs, rng.random() < 0.3, rng.choice([None, list(K.KARYO)]),
                      rectype, 1, otype)
+    K.vary_call(rng, case)
+    if otype == 0 and rng.random() < 0.6:
+        case["defaults"] = True        # built without overlap_type: the documented default is Equality
     return K.fix_ids(K._sort_inputs(case))
 
 
@@ -173,7 +177,9 @@ def generate(rng, n):
     for k in range(n):
         r = k % 10
         ot = rng.randrange(3)
-        if r < 3:
+        if k % 800 == 7:
+            out.append(K.gen_long_sparse(rng, 1, ot))
+        elif r < 3:
             out.append(K.gen_valid(rng, 1, ot))
         elif r < 6:
             out.append(_dense(rng))
@@ -197,6 +203,15 @@ def corpus():
                                          [R(0, "chr1", 5, 5, alts=("G", "C")), R(0, "chr1", 5, 5, alts=()),
                                           R(0, "chr1", 6, 6, alts=("C",)), R(0, "chr1", 20, 21, alts=("C",))]],
                               "calls": 0}))
+    # r3: the documented default relation is Equality (iterator built without overlap_type); .next() is the
+    # allele-aware __next__; a run of positional groups without first-input record is skipped inside one call
+    for via in (0, 1, 2):
+        out.append(K.fix_ids({"stream": "corpus", "kind": 1, "otype": 0, "by_barcodes": True, "contigs": None, "rectype": "loc",
+                              "defaults": True, "via": via,
+                              "inputs": [[R(0, "chr1", 5, 5, alts=("C", "G")), R(0, "chr1", 5, 5, alts=("G",)), R(0, "chr1", 5, 6, alts=("G", "C"))],
+                                         [R(0, "chr1", 5, 5, alts=("C",)), R(0, "chr1", 5, 5, alts=()), R(0, "chr1", 6, 6, alts=("C", "G"))]],
+                              "calls": 0}))
+    out.append(K.gen_long_sparse(__import__("random").Random(5), 1, 0, 1300))
     # r2: a real MafRecord with an empty Tumor_Seq_Allele2 has alts [""], which is not a subset of ["T"]
     for rt in ("maf",):
         out.append(K.fix_ids({"stream": "corpus", "kind": 1, "otype": 2, "by_barcodes": False, "contigs": None, "rectype": rt,
